@@ -7,7 +7,7 @@
 
    Quantification: [w] = any subscriptions (4 handler lists of any length), [c] = any number of
    addon modules with any number of sub-addons, every hook and subscriber with an arbitrary
-   behaviour program (ops take/drop/send/send-copy/mutate, errors caught or not, then return
+   behaviour program (ops take/drop/send/send-copy/mutate/failing-take, errors caught or not, then return
    falsy/truthy or raise), any predicate outcomes, message kind plain / command channel / RLV with
    any number of commands, reliable or not, with or without acks. *)
 From Coq Require Import List Bool Arith.
@@ -50,7 +50,8 @@ Theorem C07_unclaimed_forwarded : forall w c, cfg_unclaimed c = true ->
 Proof. exact unclaimed_forwarded. Qed.
 Print Assumptions C07_unclaimed_forwarded.
 
-(* ---- isolation: replacing every `raise` of every hook and subscriber by a falsy return changes
+(* ---- isolation: replacing every `raise` of every hook and subscriber by a falsy return, and removing
+   every take() that fails in its copy step, changes
    neither the subscriptions left, nor the final flags/status, nor the trace (which hooks run in
    which order, what reaches the wire, the logger call) except for the exception-log entries *)
 Theorem C07_isolation : forall w c w' es r,
@@ -65,6 +66,10 @@ Theorem C07_isolation_history : forall cs w,
   map (fun r => (strip_exc (fst r), snd r)) (snd (run_history w cs)).
 Proof. exact history_calm. Qed.
 Print Assumptions C07_isolation_history.
+
+(* in particular a take() that raises in its copy step (message that cannot be deep-copied) behaves
+   like the same hook without that take attempt ([calm] removes failing takes: where the failure is
+   caught the hook goes on, where it is not the hook ends with a falsy return) - see C07_ex_failed_takes *)
 
 (* ... but not to subscriber predicates (Event.notify calls them outside its try/except) *)
 Theorem C07_isolation_predicate_refuted :
@@ -83,6 +88,12 @@ Theorem C07_no_resurrection : forall ops m, finalized m = true ->
   (forall i o, nth_error ops i = Some o -> (o = SendOrig \/ o = Drop) -> nth_error oks i = Some false).
 Proof. exact apply_ops_dead. Qed.
 Print Assumptions C07_no_resurrection.
+
+(* a take() whose copy step fails claims nothing: flags untouched, nothing emitted, no copy *)
+Theorem C07_failed_take_claims_nothing : forall ops m,
+  apply_ops (TakeFail :: ops) m = (let '(m', ws, oks) := apply_ops ops m in (m', ws, false :: oks)).
+Proof. exact failed_take_noop. Qed.
+Print Assumptions C07_failed_take_claims_nothing.
 
 (* any operation sequence on a message from the wire: at most once, exactly when finalized and not dropped *)
 Theorem C07_ops_at_most_once : forall ops r a,
@@ -159,6 +170,24 @@ Example C07_ex_take_then_drop : hp_trace w_one_sub cfg_take_then_drop =
   [ESub HSessNamed 1; EOp Take true; EHook PtLludp 0 None; EAck; EOp Drop true; ELog true true true 0]
   /\ hp_status w_one_sub cfg_take_then_drop = StForward.
 Proof. exact ex_take_then_drop. Qed.
+
+(* failed takes by a subscriber (uncaught) and an addon (caught): unclaimed, forwarded exactly once,
+   and indistinguishable (up to exception log / failed-take records) from the hooks without the take *)
+Example C07_ex_failed_takes : cfg_unclaimed cfg_failed_takes = true /\
+  hp_trace w_one_sub cfg_failed_takes =
+  [ESub HSessNamed 1; EOp TakeFail false; EExcSub;
+   EHook PtLludp 0 None; EOp TakeFail false; EOp Mutate true; ELog false false false 1; EOrig 1]
+  /\ hp_status w_one_sub cfg_failed_takes = StForward
+  /\ hp_world w_one_sub cfg_failed_takes = w_one_sub.
+Proof. exact ex_failed_takes. Qed.
+
+Example C07_ex_failed_takes_isolation :
+  calm_cfg cfg_failed_takes =
+  mk_msgcfg KPlain true true [(1, (PTrue, Ret false))]
+            [mk_modcfg [] (mk_hookset None (Some (Act false Mutate (Ret false))) None)]
+  /\ strip_exc (hp_trace w_one_sub (calm_cfg cfg_failed_takes)) = strip_exc (hp_trace w_one_sub cfg_failed_takes)
+  /\ hp_trace w_one_sub (calm_cfg cfg_failed_takes) <> hp_trace w_one_sub cfg_failed_takes.
+Proof. exact ex_failed_takes_calm. Qed.
 
 (* regression instances of the two repaired defects *)
 Example C07_ex_cmd_sub_drops : hp_trace w_one_sub cfg_cmd_sub_drops =
